@@ -730,7 +730,11 @@ def check_policy(case):
     o = first if i == 0 else lib.execute(dict(
         item, run=dict(run, seed=s_), env=case['envs']['a']))
     post.append(o.get('post'))
-  randomised = run['designer'] in ('eagle', 'nsga2', 'cmaes') or (
+  # seeds can only be told apart where the space is big enough: a continuous
+  # parameter with a proper range (eagle, CMA-ES), >= 1e12 orderings (grid)
+  wide = any(p_['kind'] == 'DOUBLE' and p_['lo'] < p_['hi']
+             for p_ in run['space']['params'])
+  randomised = (run['designer'] in ('eagle', 'nsga2', 'cmaes') and wide) or (
       run['designer'] == 'grid' and _shuffles(run))
   if randomised and sum(len(b) for b in post[0] or []) >= 8:
     if all(p == post[0] for p in post[1:]):
